@@ -5,6 +5,7 @@
 From NDN Require Import Base.Prelude Model.Validator Spec.ChainSpec.
 From NDN Require Import Proofs.ValidatorProofs Proofs.ValidatorHistory Proofs.ValidatorTie Proofs.ValidatorExamples.
 From NDN Require Generated.ValidatorConsts.
+From NDN Require Properties.C14Findings.   (* keeps the refutation witnesses checked on every run *)
 
 (* accept <-> chain, for every world, schema, anchor, cache satisfying the invariant, packet and fuel,
    whenever the validator answers at all (r <> out-of-fuel; see C14Findings for certificate loops).
